@@ -34,6 +34,17 @@ Definition script_for (kind target : Z) (catch_each : bool) : str * Z :=
   else
     let k := Z.max ((target - 3) / 2) 0 in (lit "ping " ++ show_Z k, 2 * k + 3).
 
+(* earlier, caught failures on the same interpreter (twin of harness c16::HISTORIES) *)
+Definition history_text (h : Z) : str :=
+  if h =? 1 then
+    [c_nl] ++ lit "catch {if 1 ""set x \{""}" ++ [c_nl] ++ lit "catch {if 1 {if 1 ""set x \{""}}" ++ [c_nl]
+    ++ lit "catch {foreach i 1 {expr {[}}}" ++ [c_nl] ++ lit "set h ok"
+  else if h =? 2 then
+    [c_nl] ++ lit "proc inf {} {inf}" ++ [c_nl] ++ lit "catch {inf}" ++ [c_nl] ++ lit "catch {if 1 {inf}}" ++ [c_nl] ++ lit "set h ok"
+  else if h =? 3 then
+    [c_nl] ++ lit "proc wa {a} {}" ++ [c_nl] ++ lit "catch {if 1 {wa}}" ++ [c_nl] ++ lit "catch {wa 1 2}" ++ [c_nl] ++ lit "set h ok"
+  else [].
+
 Definition c16_scripts (c : term) : list str :=
   let n := term_int (term_nth c 0) in
   let kind := term_int (term_nth c 1) in
@@ -41,7 +52,7 @@ Definition c16_scripts (c : term) : list str :=
   let catch_each := Z.eqb (term_int (term_nth c 3)) 1 in
   let reps := Z.to_nat (term_int (term_nth c 4)) in
   let s := fst (script_for kind target catch_each) in
-  [procs_text] ++ concat (repeat [s; lit "catch {" ++ s ++ lit "} msg; set msg"] reps)
+  [procs_text ++ history_text (term_int (term_nth c 5))] ++ concat (repeat [s; lit "catch {" ++ s ++ lit "} msg; set msg"] reps)
   ++ [fst (script_for 1 n false)].
 
 Definition c16_model_obs (c : term) : term :=
